@@ -105,6 +105,24 @@ Proof.
       intros p Hp. rewrite Forall_forall in Ha. apply eqb_iff_Z. apply (Ha p Hp).
 Qed.
 
+Lemma pool_seq_ok_b_sound ops : forall w seen, pool_seq_ok_b w ops seen = true <-> pool_seq_ok w ops seen.
+Proof.
+  induction ops as [|o ops IH]; intros w [|sn seen]; cbn [pool_seq_ok_b pool_seq_ok];
+    try (split; [discriminate | contradiction]); try tauto.
+  rewrite !andb_true_iff, IH, forallb_forall.
+  assert (Hx : forall x, ((x =? 0)%N || existsb (N.eqb x) (wget (wnext w o) (user_of o))) = true <->
+                         (x = 0%N \/ In x (wget (wnext w o) (user_of o)))).
+  { intro x. rewrite orb_true_iff, N.eqb_eq, existsb_exists. split; intros [H|H]; try (left; exact H); right.
+    - destruct H as [y [Hy E]]. apply N.eqb_eq in E. subst. exact Hy.
+    - exists x. split; [exact H | apply N.eqb_refl]. }
+  assert (Hs : (match o with PGet _ _ | PPut _ => match sn with [] => true | _ => false end | _ => true end) = true
+               <-> match o with PGet _ _ | PPut _ => sn = [] | _ => True end).
+  { destruct o, sn; split; intros; try reflexivity; try discriminate; try exact I. }
+  rewrite Hs. split.
+  - intros [[H1 H2] H3]. split; [exact H1|]. split; [|exact H3]. intros x Hin. apply Hx. apply H2. exact Hin.
+  - intros [H1 [H2 H3]]. split; [split; [exact H1|]|exact H3]. intros x Hin. apply Hx. apply H2. exact Hin.
+Qed.
+
 Theorem oracle_sound c :
   oracle c = true <->
   match c with
@@ -113,6 +131,8 @@ Theorem oracle_sound c :
   | CPool _ data got_len seen => got_len = 0%Z /\ seen = data
   | CReg obs => reg_consistent obs
   | CRegApply obs reached => reg_consistent obs /\ all_reached reached
+  | CNestF faults _ _ obs => all_same (faults ++ obs)
+  | CPoolSeq ops seen => pool_seq_ok [] ops seen
   end.
 Proof.
   destruct c; cbn [oracle].
@@ -122,6 +142,8 @@ Proof.
   - apply same_name_same_logger_sound.
   - rewrite andb_true_iff, same_name_same_logger_sound. unfold all_reached.
     rewrite forallb_forall, Forall_forall. tauto.
+  - apply all_same_b_sound.
+  - apply pool_seq_ok_b_sound.
 Qed.
 
 (* ---------------------------------------------------------------------------------------- *)
